@@ -11,7 +11,7 @@ UDP (stateless, one line per query):
             the code reads `options().case_randomization` whatever the constructor)
 * addr      `4:<ip as decimal>:<port>` / `6:<ip as decimal>:<port>`
 * questions `-` or `name/type/class,…` (name token of Drv/Proto)
-* event     `D;<delay>;<src addr>;<parses01>;<response01>;<id>;<questions>;<- or =rawhex>` or `E;<delay>`
+* event     `D;<delay>;<src addr>;<parses01>;<response01>;<id>;<questions>;<- or =rawhex>[;h<flags word hex>]` or `E;<delay>`
 answer: `ok <transmission>.<event index> c=<consumed per started transmission> k=<class>` / `err c=… k=…` /
 `timeout c=… k=…`; class = `-`, or `undecodable` / `case` when a datagram of that known-finding class ended the query
 -/
@@ -46,7 +46,9 @@ def parseEvent (s : String) : Option Timed :=
   | ["E", d] => do
     let d ← d.toNat?
     pure (d, .ioErr)
-  | ["D", d, a, p, r, i, q, _raw] => do
+  | "D" :: d :: a :: p :: r :: i :: q :: _raw :: hdr => do
+    -- optional 9th field `h<flags word>`: the model does not look at header bits other than QR
+    if hdr.length > 1 then none
     let d ← d.toNat?; let a ← parseAddr a; let p ← parseBool p; let r ← parseBool r
     let i ← i.toNat?; let q ← parseQuestions q
     pure (d, .dgram { src := a, parses := p, isResponse := r, id := i, questions := q })
